@@ -141,6 +141,7 @@ type World struct {
 
 	// broker session state
 	everAccepted bool
+	loseNext     bool // the broker has lost the session: the next accepted CONNECT starts a fresh one
 	subs         map[string]int
 	inflight2    map[int]bool
 	stored       map[int]int
@@ -287,6 +288,13 @@ func (w *World) Subs() map[string]int {
 		m[k] = v
 	}
 	return m
+}
+
+// LoseSessionNext makes the broker forget the session at the next accepted CONNECT (a broker restart).
+func (w *World) LoseSessionNext() {
+	w.mu.Lock()
+	w.loseNext = true
+	w.mu.Unlock()
 }
 
 // ErrDial is returned by scripted dial failures.
@@ -573,14 +581,23 @@ func (w *World) process(t *Transport, p *Pkt, ev Event) ([]byte, []int) {
 			return ConnAck(false, byte(plan.Code)), deliv
 		}
 		sp := w.everAccepted
+		// assumption A6: the broker loses a session only on a connection whose CONNACK reaches the client
+		// (a reset the client cannot observe makes "subscriptions converge" unachievable for any client)
+		observable := ev["o"] == "ok"
 		switch plan.SP {
 		case "true":
 			sp = w.everAccepted // a broker cannot present a session it never had
 		case "false":
-			sp = false
+			if observable {
+				sp = false
+			}
 		}
 		if p.Connect != nil && p.Connect.CleanSession {
 			sp = false
+		}
+		if w.loseNext && observable {
+			sp = false
+			w.loseNext = false
 		}
 		if !sp {
 			w.subs = map[string]int{}
